@@ -1,5 +1,6 @@
 import ScriggoV.Lemmas.Scopes
 import ScriggoV.Lemmas.EnvPool
+import ScriggoV.Lemmas.ImporterPolicy
 /-! C19 — code can reach only the host functionality the embedder supplies.
 
 Property theorems only (model: `Model/Scopes.lean`, lemmas: `Lemmas/Scopes.lean`). The universe
@@ -15,7 +16,13 @@ Second part (`ScriggoV.EnvPool`, model: `Model/EnvPool.lean` over the run histor
 `Model/Runs.lean`): *which* print hook / context a supplied function reaches — the ones of the run
 that calls it, for every history of runs of one built artefact, whatever earlier runs left in the
 pooled argument slices. The way `callNative` fills a pooled slice and the way a VM gets its env are
-the definitions of `Gen/NativeEnv.lean`, regenerated from /repo on every check. -/
+the definitions of `Gen/NativeEnv.lean`, regenerated from /repo on every check.
+
+Third part (`ScriggoV.ImporterPolicy`, model: `Model/ImporterPolicy.lean` over the importer values
+of `Model/Packages.lean`): the configured importer as a tree of members (`Packages`, importers of
+the embedder's own, `CombinedImporter` at any nesting) — a path is supplied by the first member
+with a decisive answer, and a refusal is decisive. The stop condition of `CombinedImporter.Import`
+is the definition of `Gen/Importers.lean`, regenerated from /repo on every check. -/
 namespace ScriggoV.Scopes
 open ScriggoV.Gen.Universe
 
@@ -196,3 +203,116 @@ theorem call_before_fill_is_stale :
   decide
 
 end ScriggoV.EnvPool
+
+namespace ScriggoV.ImporterPolicy
+open ScriggoV.Packages ScriggoV.Scopes
+open ScriggoV.Gen.Importers
+
+/-- **C19, when a combination of importers stops asking** (the regenerated facts): the loop of
+`CombinedImporter.Import` returns a member's answer when it carries a package **or an error**, … -/
+theorem code_stop_rule : codeRule = ⟨true, true⟩ := by decide
+
+/-- … returns it as it is, answers (nil, nil) when no member is decisive, and `Packages.Import` is
+the map lookup. -/
+theorem code_importers_shape :
+    stopReturnsAnswer = true ∧ fallThroughNilNil = true ∧ packagesImportExact = true := by decide
+
+/-- the checker looks at the importer's error before it looks at the package (`toResult`) -/
+theorem import_exits_order :
+    ScriggoV.Gen.Universe.importExits = ["nil-importer", "importer-error", "nil-package"] := by decide
+
+/-- **C19, `combined_import_first_decisive`.** For every importer tree — `Packages`, importers of
+the embedder's own with any answers, `CombinedImporter` at any nesting — `Import(path)` is the
+answer of the first non-combined member, in order, that is not (nil, nil): a package supplies the
+path, an error refuses it, and in both cases no later member has a say. -/
+theorem combined_import_first_decisive (t : Tree) (path : String) :
+    eval codeRule t path = firstDecisive t.leaves path := by
+  rw [code_stop_rule]; exact eval_aux t path
+
+theorem toResult_pkg {a : Answer} {k : NativePkg} (h : toResult a = .pkg k) : a = (some k, none) := by
+  rcases a with ⟨_ | p, _ | e⟩ <;> simp [toResult] at h
+  rw [h]
+
+/-- **C19, everything reachable of a path comes from the first decisive member.** After a check
+under an importer tree that does not fail, every native function recorded for a path `p` is a
+function of the package that the first decisive member of the tree supplied for `p` (with no
+error), … -/
+theorem natives_from_first_decisive (t : Tree) (globals : List GlobalDecl) (allowGo template : Bool)
+    (ops : List Op) (st : State) (h : checkTree codeRule (some t) globals allowGo template ops = .ok st)
+    (nf : NativeFn) (hnf : nf ∈ st.natives) (p : String) (hp : nf.prov = .importer p) :
+    ∃ pkg, firstDecisive t.leaves p = (some pkg, none) ∧ ∃ d ∈ pkg.decls, d.kind = .func ∧
+      (nf.name = d.name ∨ ∃ q, nf.name = q ++ "." ++ d.name) := by
+  have hl := natives_confined _ template ops st h nf hnf
+  simp only [NativeFn.Legit, hp] at hl
+  obtain ⟨pkg, hpkg, hd⟩ := hl
+  obtain ⟨t', ht', hres⟩ := flat_importPath_pkg hpkg
+  cases ht'
+  exact ⟨pkg, by rw [← combined_import_first_decisive]; exact toResult_pkg hres, hd⟩
+
+/-- … and so is every name that resolves to something of `p`: the package itself or one of its
+declarations (functions, variables, constants, types). -/
+theorem names_from_first_decisive (t : Tree) (globals : List GlobalDecl) (allowGo template : Bool)
+    (ops : List Op) (st : State) (h : checkTree codeRule (some t) globals allowGo template ops = .ok st)
+    (name : String) (e : Entry) (hl : lookup st.scopes name = some e) (p : String)
+    (hp : e.prov = .importer p) :
+    ∃ pkg, firstDecisive t.leaves p = (some pkg, none) ∧
+      ((e.kind = .pkg ∧ e.members = pkg.decls) ∨ (⟨name, e.kind⟩ ∈ pkg.decls ∧ e.members = [])) := by
+  have hleg := resolved_names_are_supplied _ template ops st h name e hl
+  simp only [Entry.Legit, hp] at hleg
+  obtain ⟨pkg, hpkg, hd⟩ := hleg
+  obtain ⟨t', ht', hres⟩ := flat_importPath_pkg hpkg
+  cases ht'
+  exact ⟨pkg, by rw [← combined_import_first_decisive]; exact toResult_pkg hres, hd⟩
+
+/-- **C19, `refused_path_unreachable`.** If a member refuses a path (answers with an error) before
+any member supplies it, nothing of that path is reachable, whatever later members offer: no native
+function of the path is recorded and no name resolves to the path's package or declarations … -/
+theorem refused_path_unreachable (t : Tree) (path : String)
+    (href : RefusedBeforeSupplied t.leaves path) (globals : List GlobalDecl)
+    (allowGo template : Bool) (ops : List Op) (st : State)
+    (h : checkTree codeRule (some t) globals allowGo template ops = .ok st) :
+    (∀ nf ∈ st.natives, nf.prov ≠ .importer path) ∧
+    (∀ name e, lookup st.scopes name = some e → e.prov ≠ .importer path) := by
+  have herr := firstDecisive_refused href
+  refine ⟨fun nf hnf hp => ?_, fun name e hl hp => ?_⟩
+  · obtain ⟨pkg, hfd, _⟩ := natives_from_first_decisive t globals allowGo template ops st h nf hnf path hp
+    rw [hfd] at herr; cases herr
+  · obtain ⟨pkg, hfd, _⟩ := names_from_first_decisive t globals allowGo template ops st h name e hl path hp
+    rw [hfd] at herr; cases herr
+
+/-- … and a check that imports the path fails, in every form of import. -/
+theorem refused_import_fails (t : Tree) (path : String)
+    (href : RefusedBeforeSupplied t.leaves path) (globals : List GlobalDecl)
+    (allowGo template : Bool) (ops : List Op) (form : ImportForm)
+    (hmem : .importNative path form ∈ ops) :
+    ∃ e, checkTree codeRule (some t) globals allowGo template ops = .error e := by
+  refine unprovided_import_fails _ template ops path form (fun p hp => ?_) hmem
+  obtain ⟨t', ht', hres⟩ := flat_importPath_pkg hp
+  cases ht'
+  have herr := firstDecisive_refused href
+  rw [← combined_import_first_decisive, toResult_pkg hres] at herr
+  cases herr
+
+/-- a policy importer that refuses `p`, combined with a `Packages` that has `p` -/
+def denyThenSupply : Tree :=
+  .combined [.custom 0 (fun path => if path = "p" then (none, some 7) else (none, none)),
+    .combined [.packages [("q", some ⟨"q", []⟩)], .packages [("p", some ⟨"p", [⟨"F", .func⟩]⟩)]]]
+
+example : RefusedBeforeSupplied denyThenSupply.leaves "p" := by
+  refine ⟨[], .custom 0 (fun path => if path = "p" then (none, some 7) else (none, none)),
+    [.packages [("q", some ⟨"q", []⟩)], .packages [("p", some ⟨"p", [⟨"F", .func⟩]⟩)]], rfl, ?_, rfl⟩
+  intro a h; cases h
+
+/-- with the code's rule the import of the refused path is the importer's error … -/
+example : (match checkTree codeRule (some denyThenSupply) [] false false
+      [.importNative "p" .default, .enter, .useSelector "p" "F"] with
+    | .ok st => some st.natives | .error _ => none) = none := by decide
+
+/-- … **and the hypothesis is needed**: under a stop rule that drops a member's error and carries
+on (`if p != nil`), the later member's package is imported and its function is reachable. -/
+theorem dropped_error_reaches_later_member :
+    (match checkTree ⟨true, false⟩ (some denyThenSupply) [] false false
+      [.importNative "p" .default, .enter, .useSelector "p" "F"] with
+    | .ok st => some st.natives | .error _ => none) = some [⟨.importer "p", "p.F"⟩] := by decide
+
+end ScriggoV.ImporterPolicy
